@@ -20,7 +20,7 @@ References, dereferences, copies and moves are transparent.
 from .facts import Place, Operand, strip_generics, short_ty
 from .flow import TRANSPARENT_CALLS, is_transparent_call, trace_bool, switch_cond
 
-MAXDEPTH = 14
+MAXDEPTH = 28
 
 
 def _proj_names(proj):
